@@ -17,7 +17,7 @@ func init() {
 			"Oracle: an explicit depth-counting tree walk written in the harness (object members form an unordered group). Non-trivial: the document is a container; distinct by (tree, path)",
 		Run:    runC15,
 		Replay: replayC15,
-		MinExercised: map[string]int64{"anykey": 500, "anyarray": 500, "anylevel": 20000, "anylevel.last": 2000, "equiv.unbounded": 500, "equiv.kfold": 2000, "strict.skip": 5000},
+		MinExercised: map[string]int64{"anykey": 500, "anyarray": 500, "anylevel": 20000, "anylevel.last": 2000, "equiv.unbounded": 500, "equiv.kfold": 2000, "strict.skip": 5000, "exists": 5000},
 		Assumptions: []string{"object member order is open: results are compared as sequences in which the members of one object may appear in any order (all orders enumerated for objects of <= 3 members)"},
 	})
 }
@@ -255,6 +255,33 @@ func checkAny(c *h.Ctx, docText string, doc any, listings [][]wnode, spec anySpe
 		return
 	}
 	got := canonItems(o.Items)
+	// the result-less traversal (Exists) agrees with the collecting one
+	if suffix == "" {
+		oe := h.Call("exists", p, h.Decode(docText, false), h.Opts{})
+		c.Eval(1)
+		if oe.Class != h.OK || oe.Bool != (len(o.Items) > 0) {
+			c.Violate("exists", h.F("mode", modeName(lax), "form", "bare"), fmt.Sprintf("Query(%s) on %s returns %d items but Exists = %s", ptxt, docText, len(o.Items), oe.Summary()), cs)
+		} else {
+			c.Held("exists")
+		}
+		// ... also for the last node the walk selects, behind a filter and inside exists()
+		if len(o.Items) > 0 && lax {
+			lastItem := o.Items[len(o.Items)-1]
+			if sc, ok := scalarLit(lastItem); ok {
+				ftxt := ptxt + " ? (@ == " + sc + ")"
+				if pf := cachedPath(ftxt); pf != nil {
+					of := h.Call("exists", pf, h.Decode(docText, false), h.Opts{})
+					op := h.Call("query", cachedPath(`"item" ? (exists($`+spec.text+" ? (@ == "+sc+")))"), h.Decode(docText, false), h.Opts{})
+					c.Eval(2)
+					if of.Class != h.OK || !of.Bool || op.Class != h.OK || len(op.Items) != 1 {
+						c.Violate("exists", h.F("mode", modeName(lax), "form", "filter"), fmt.Sprintf("%s selects %s on %s, but Exists(%s) = %s and \"item\" ? (exists($%s ? (@ == %s))) = %s", ptxt, sc, docText, ftxt, of.Summary(), spec.text, sc, op.Summary()), cs)
+					} else {
+						c.Held("exists")
+					}
+				}
+			}
+		}
+	}
 	if listings == nil {
 		// too many member orders: compare as multisets
 		c.Skip(clause, "member-order-cap")
@@ -451,4 +478,22 @@ func runC15(c *h.Ctx) {
 	for i := 0; i < n; i++ {
 		checkTree(c, gen.Doc(r, dc), specs, true)
 	}
+}
+
+// scalarLit spells a scalar item as a path literal.
+func scalarLit(v any) (string, bool) {
+	switch x := v.(type) {
+	case string:
+		return gQuote(x), true
+	case float64:
+		if x == float64(int64(x)) {
+			return fmt.Sprint(int64(x)), true
+		}
+		return fmt.Sprint(x), true
+	case nil:
+		return "null", true
+	case bool:
+		return fmt.Sprint(x), true
+	}
+	return "", false
 }
